@@ -578,6 +578,7 @@ func newCrashExec(c *crashCase, st *kvh.Stats, setup func(x *crashExec)) (*crash
 	if f != nil {
 		return nil, f
 	}
+	r.NoHuge = true // the bytes of every file at every frozen instant are kept in memory
 	x := &crashExec{c: c, r: r, st: st, cs: cs, nestedDepth: 1}
 	if !kvh.GetEnv().Thorough() {
 		x.nestedMax = 2
